@@ -396,7 +396,7 @@ static void emit_sparse_model_witness() {
 }
 
 // ---------------------------------------------------------------- cases
-static const long kWitness = 14;
+static const long kWitness = 15;
 
 // exhaustive small scope: every vector k/8 with 2..4 entries (zeros anywhere, mass anywhere)
 static std::vector<std::vector<double>> g_small;
@@ -435,6 +435,7 @@ static void witness(Rng & rng, long idx) {
         case 9: emit_vose(rng, {0.125, 0.25, 0.125, 0.5}, 8); break;
         case 10: emit_rand({TWO53 / 2, TWO53 / 4, TWO53 / 4, 0, TWO53 - 1}); break;
         case 12: emit_sparse_model_witness(); break;
+        case 14: emit_proj({1e308, 1e308}); break;                               // finite input whose sum overflows a double
         case 13: {                                                               // sparse: the same draw on the LAST stored row: the scan leaves the arrays
             std::vector<std::vector<double>> rows{{0.5, 0.5 - e21, 0.0}};
             std::printf("#stat sparse_last_row_above_sum 1\n"); std::fflush(stdout);
